@@ -352,6 +352,8 @@ def c20(ctx):
     mc(ctx, "Upload.tla", "Upload_%s.cfg" % t, what="ControlLast, ErrorMeansAbsent, RemoveLast, SuccessPost, Confined in every state")
     vf.tlaps(ctx, "proofs/UploadProof.tla")      # ControlLast / ErrorMeansAbsent for an arbitrary number of listed files
     vf.tlaps(ctx, "proofs/RemoveProof.tla")      # RemoveLast / ErrorKeepsControl / OkMeansAllGone (Move, Remove), arbitrary N
+    # a third engine: the Copy machine's inductive invariant incl. SuccessPost / FailureReported, every N <= 8 at once
+    vf.apalache(ctx, "apalache/UploadApa.tla", [("Init", "Inv", 0), ("InvInit", "Inv", 1), ("InvInit", "Post", 0)])
     g1 = gen(ctx, "UploadGen.tla", "UploadGen_%s.cfg" % t, ctx.path("up.ndjson"), what="upload scenarios")
     judge(ctx, "C20", g1, what="inotify traces vs upload model")
     ctx.exhaustive = True
